@@ -28,6 +28,7 @@ type Plan struct {
 	Log           string   `json:"log"`
 	Ambient       int      `json:"ambient"`
 	Stall         bool     `json:"stall"`
+	SiteSeeds     map[int]uint32 `json:"site_seeds"`
 }
 
 func init() {
@@ -62,6 +63,7 @@ func init() {
 	simos.Ambient = p.Ambient
 	verifhook.Ambient = p.Ambient
 	verifhook.Stall = p.Stall
+	verifhook.SiteSeeds = p.SiteSeeds
 	simos.Reset(p.FaultAt, p.Kind, p.TornNum, p.TornDen)
 	if p.Log != "" {
 		lf, err := os.OpenFile(p.Log, os.O_CREATE|os.O_WRONLY|os.O_APPEND, 0o644)
